@@ -1,5 +1,6 @@
 import SlugModel.Lemmas.TrEq_excludes
 import SlugModel.Lemmas.TrEq_readRules
+import SlugModel.Props.C03
 /-!
 # C03 (tie by translation)
 
@@ -32,5 +33,137 @@ blank nor a comment nor a lone `!`, with the `negationsAfter` marks) is the tran
 theorem C03_tie_readRules (content : Str) :
     Gen.readRules (scanLines content) = (readRules content, false) :=
   gen_readRules content
+
+/-! ### The property, stated over the translated functions -/
+
+/-- **C03_gen_excludes_last_match.** The Go method `Ruleset.Excludes` (internal/ignorefiles/ignorerules.go), as
+translated, for every rule list and path: no error; when no rule matches the path the result is "not excluded,
+not dominating"; otherwise the last rule of the list that matches the path decides alone — excluded unless
+that rule is negated, dominating when it is moreover not followed by a negated rule (`negationsAfter`). -/
+theorem C03_gen_excludes_last_match (rules : List Rule) (path : Str) :
+    Gen.excludes rules path =
+      ((match lastMatch rules path with
+        | none => (false, false)
+        | some r => (!r.negated, !r.negated && !r.negAfter)), false) := by
+  rw [gen_excludes, excludes_eq_foldl, fold_eq]
+  cases lastMatch rules path <;> rfl
+
+/-- **C03_gen_excludes_last_match_decomp.** What "the last matching rule" is: when the translated `Excludes`
+answers through a rule `r`, the list splits as `pre ++ r :: post` with `r` matching the path and no rule of
+`post` matching it. -/
+theorem C03_gen_excludes_last_match_decomp (rules : List Rule) (path : Str) :
+    (Gen.excludes rules path = ((false, false), false) ∧ ∀ q ∈ rules, ruleMatches q path = false) ∨
+    (∃ pre r post, rules = pre ++ r :: post ∧ ruleMatches r path = true ∧
+      (∀ q ∈ post, ruleMatches q path = false) ∧
+      Gen.excludes rules path = ((!r.negated, !r.negated && !r.negAfter), false)) := by
+  rw [C03_gen_excludes_last_match]
+  cases h : lastMatch rules path with
+  | none => exact Or.inl ⟨rfl, lastMatch_none path rules h⟩
+  | some r =>
+    obtain ⟨pre, post, e, hm, hp⟩ := lastMatch_decomp path rules r h
+    exact Or.inr ⟨pre, r, post, e, hm, hp, rfl⟩
+
+/-- **C03_gen_excludes_last_match_wins.** For well-formed rules the `Excluded` result of the translated
+`Ruleset.Excludes` is the documented glob semantics: the last rule whose glob (segment-wise specification
+`specMatches`) selects the path decides — a negated rule gives `false`, any other `true` — and with no rule
+selecting the path the result is `false`; the error result is never set. -/
+theorem C03_gen_excludes_last_match_wins (rules : List Rule) (path : Str) (h : ∀ r ∈ rules, WFVal r.val) :
+    (Gen.excludes rules path).1.1 = specExcluded (rules.map fun r => ⟨r.val, r.negated⟩) path ∧
+    (Gen.excludes rules path).2 = false := by
+  rw [gen_excludes]
+  exact ⟨C03_last_match_wins rules path h, rfl⟩
+
+/-- a rule without its `negationsAfter` mark: stored pattern and negation -/
+def ruleKey (r : Rule) : Str × Bool := (r.val, r.negated)
+
+/-- the rule (stored pattern, negated) one line of a rule file contributes, `none` for a line that contributes
+nothing: a blank line, a comment, a lone `!`.  The stored pattern is the trimmed line without its `!`, with
+`**` appended after a trailing `/`, and then without its leading `/` or else with `**/` in front. -/
+def lineRule (line : Str) : Option (Str × Bool) :=
+  match trimSpace line with
+  | [] => none
+  | c :: rest =>
+    if c = '#' then none
+    else
+      let p1 := if c = '!' then rest else c :: rest
+      if p1 = [] then none
+      else
+        let p2 := if p1.getLast? = some '/' then p1 ++ ['*', '*'] else p1
+        some ((match p2 with
+          | '/' :: r => r
+          | _ => '*' :: '*' :: '/' :: p2), decide (c = '!'))
+
+/-- examples: a negated directory pattern, a rooted pattern, and the lines that contribute nothing -/
+example : lineRule " !foo/ ".toList = some ("**/foo/**".toList, true) := by decide
+example : lineRule "/a/b".toList = some ("a/b".toList, false) := by decide
+example : lineRule "# c".toList = none ∧ lineRule "  ".toList = none ∧ lineRule "!".toList = none := by decide
+
+theorem markBack_ruleKey (acc : List Rule) : (markBack acc).map ruleKey = acc.map ruleKey := by
+  induction acc with
+  | nil => rfl
+  | cons r rs ih =>
+    unfold markBack
+    split
+    · rfl
+    · simp only [List.map_cons, ih]; rfl
+
+theorem readLine_ruleKey (acc : List Rule) (line : Str) :
+    (readLine acc line).map ruleKey = (lineRule line).toList ++ acc.map ruleKey := by
+  unfold readLine lineRule
+  by_cases h0 : line = []
+  · subst h0; simp [trimSpace, trimLeft]
+  · simp only [h0, if_false]
+    generalize trimSpace line = t
+    rcases t with _ | ⟨c, rest⟩
+    · rfl
+    · by_cases hc : c = '#'
+      · subst hc; rfl
+      · simp only [hc, if_false]
+        by_cases hneg : c = '!'
+        · subst hneg
+          simp only [if_true, decide_true]
+          split
+          · rfl
+          · simp [markBack_ruleKey, ruleKey]; rfl
+        · simp only [hneg, if_false, decide_false]
+          split
+          · rfl
+          · simp [ruleKey]; rfl
+
+theorem foldl_readLine_ruleKey (lines : List Str) (acc : List Rule) :
+    (lines.foldl readLine acc).map ruleKey = (lines.filterMap lineRule).reverse ++ acc.map ruleKey := by
+  induction lines generalizing acc with
+  | nil => rfl
+  | cons l ls ih =>
+    rw [List.foldl_cons, ih, readLine_ruleKey]
+    cases h : lineRule l <;> simp [h]
+
+/-- **C03_gen_readRules_defaults_first.** The Go function `readRules` (internal/ignorefiles/terraformignore.go), as
+translated, on the lines of any content: no error, and the returned rule list — looking at each rule's stored
+pattern and negation, i.e. up to the `negationsAfter` marks — is the default rules, in their order, followed by
+exactly one rule for every line that is neither blank nor a comment nor a lone `!`, in the order of the lines
+(`lineRule` says which rule). -/
+theorem C03_gen_readRules_defaults_first (content : Str) :
+    (Gen.readRules (scanLines content)).2 = false ∧
+    (Gen.readRules (scanLines content)).1.map ruleKey =
+      defaultRules.map ruleKey ++ (scanLines content).filterMap lineRule := by
+  rw [gen_readRules]
+  refine ⟨rfl, ?_⟩
+  show (readRules content).map ruleKey = _
+  unfold readRules
+  rw [List.map_reverse, foldl_readLine_ruleKey]
+  simp [List.map_reverse]
+
+/-- **C03_gen_readRules_marking.** … and the marks: in the rule list the translated `readRules` returns, every
+rule that is followed (later in the list) by a negated rule has `negationsAfter` set — the default rules
+included, which is the "re-marking" a `!` line performs. -/
+theorem C03_gen_readRules_marking (content : Str) : MarkedOK (Gen.readRules (scanLines content)).1 := by
+  rw [gen_readRules]; exact C03_marking content
+
+/-- **C03_gen_readRules_stored_vals.** Every stored pattern in the rule list the translated `readRules` returns
+(default rules included) is non-empty and does not end with `/`. -/
+theorem C03_gen_readRules_stored_vals (content : Str) :
+    ∀ r ∈ (Gen.readRules (scanLines content)).1, r.val ≠ [] ∧ r.val.getLast? ≠ some '/' := by
+  rw [gen_readRules]; exact C03_stored_vals content
 
 end Slug
